@@ -110,7 +110,19 @@ func (p *PortSet) Union(other *PortSet) {
 
 // ContainedIn: return true if current PortSet object is contained in input PortSet object
 func (p *PortSet) ContainedIn(other *PortSet) bool {
-	return p.Ports.IsSubset(other.Ports)
+	if !p.Ports.IsSubset(other.Ports) {
+		return false
+	}
+	if other.Ports.Equal(MakePortSet(true).Ports) {
+		return true // the full range covers any named port
+	}
+	// a named port is contained only in a set that holds the same name
+	for namedPort := range p.NamedPorts {
+		if !other.NamedPorts[namedPort] {
+			return false
+		}
+	}
+	return true
 }
 
 // Intersection: update current PortSet object as intersection with input PortSet object
